@@ -20,6 +20,7 @@ pub const DURS: [Option<Duration>; 5] = [
     Some(Duration::from_secs(u64::MAX)),
 ];
 pub const RETRIES: [usize; 5] = [0, 1, 2, usize::MAX - 1, usize::MAX];
+pub const MANY_RETRIES: [usize; 2] = [100, 1000];
 
 #[derive(Parser, Debug)]
 struct CliLike {
@@ -90,7 +91,7 @@ impl Prop for C18 {
          flags (a harness-side Parser flattening TimeoutSettings; second-granularity values only)}: a zero duration must be \
          rejected (InvalidInput / deserialisation error / clap error) on every path. Every configuration accepted by `new` is \
          then used for a query through every protocol entry point that takes timeout settings (and every combination of extra request settings — host name, protocol version, gather toggles, app-id check — through the generic dispatch of nine games; the HTTP game Eco through its module entry point and the generic dispatch over real loopback TCP, against a serving and a closed port), once against the valid \
-         reference server and, for retries <= 2, once against a silent one: no panic. The hook keeps the real apply_timeout \
+         reference server and, for retries <= 2 and for retries 100 and 1000, once against a silent one (every retry is used): no panic. The hook keeps the real apply_timeout \
          running on a real socket object. distinct_nontrivial = distinct (configuration, outcome class) pairs"
             .into()
     }
@@ -353,15 +354,20 @@ impl Prop for C18 {
                 for r in DURS {
                     for w in DURS {
                         for c in DURS {
-                            for retries in RETRIES {
+                            // retries 100 and 1000 only against the silent server: every one of them is really used there
+                            let all_retries: Vec<usize> = RETRIES.iter().copied().chain(MANY_RETRIES).collect();
+                            for retries in all_retries.iter().copied() {
                                 let Ok(ts) = TimeoutSettings::new(r, w, c, retries) else { continue };
                                 let cfg = format!("read={} write={} connect={} retries={retries}", dur_name(r), dur_name(w), dur_name(c));
                                 for silent in [false, true] {
-                                    if silent && retries > 2 {
+                                    if silent && retries > 2 && !MANY_RETRIES.contains(&retries) {
+                                        continue;
+                                    }
+                                    if !silent && MANY_RETRIES.contains(&retries) {
                                         continue;
                                     }
                                     n += 1;
-                                    let key = vec![DURS.iter().position(|x| *x == r).unwrap() as u32, DURS.iter().position(|x| *x == w).unwrap() as u32, DURS.iter().position(|x| *x == c).unwrap() as u32, RETRIES.iter().position(|x| *x == retries).unwrap() as u32, silent as u32];
+                                    let key = vec![DURS.iter().position(|x| *x == r).unwrap() as u32, DURS.iter().position(|x| *x == w).unwrap() as u32, DURS.iter().position(|x| *x == c).unwrap() as u32, all_retries.iter().position(|x| *x == retries).unwrap() as u32, silent as u32];
                                     if matches!(&ctx.replay, Some(rp) if *rp != key) {
                                         continue;
                                     }
@@ -374,7 +380,11 @@ impl Prop for C18 {
                                     } else {
                                         (t.server)()
                                     };
-                                    let x = run_query(server, Box::new(Faithful), Chooser::new(&[]), || (t.call)(Some(ts)));
+                                    // the horizon follows the attempts the settings ask for (auto-detection tries several variants)
+                                    let wide = MANY_RETRIES.contains(&retries);
+                                    let x = crate::vnet::with_horizon(if wide { 400_000 } else { 8192 }, if wide { 16 * (retries + 1) + 64 } else { 64 }, || {
+                                        run_query(server, Box::new(Faithful), Chooser::new(&[]), || (t.call)(Some(ts)))
+                                    });
                                     ctx.account(&x, 0);
                                     ctx.distinct_key(&(cfg.clone(), silent, x.outcome.class()));
                                     match &x.outcome {
